@@ -565,6 +565,18 @@ def oracle_history(case, rec):
                       stale=(store == "stale"))
             if q == "avg" or (q == "diam" and store is None):
                 store = "current"
+    # the caller works on what the getters handed out (they return dense
+    # copies of the stored sparse matrices): the circuit is not affected
+    for gname in ("get_admittance", "get_R", "admittance_lapacian"):
+        okg, v = rec.call(gname, getattr(net, gname))
+        if okg and isinstance(v, np.ndarray) and v.flags.writeable:
+            v *= 3.0
+            np.fill_diagonal(v, 1.0)
+    for q in (case["queries0"] or ["er"])[:3] + ["vcfb", "adm"]:
+        if q in ("avg", "diam") and store == "stale":
+            continue
+        run_query(rec, q, net, twin, case, Z, ref,
+                  "@after_caller_edited_getter_results")
 
 
 # ----------------------------------------------------------------- generators
